@@ -93,6 +93,7 @@ func evalExecBlock(vm *r.VM, execBlock *syntax.ExecBlock, params []r.Element) (r
 	defer vm.EndScope()
 
 	blockModule := vm.GetCurrentModule()
+	entryDepth := len(vm.GetCallStack())
 	// 1.0 inject 此 value from callFrame's context (for method functions ONLY)
 	if vm.GetCurrentCallFrame() != nil && vm.GetCurrentCallFrame().IsFunctionCallFrame() {
 		thisValue := vm.GetThisValue()
@@ -123,7 +124,7 @@ func evalExecBlock(vm *r.VM, execBlock *syntax.ExecBlock, params []r.Element) (r
 	rtnValue, stmtBlockErr := evalStmtBlock(vm, execBlock.StmtBlock)
 
 	if stmtBlockErr != nil {
-		return handleExceptionSignal(vm, blockModule, execBlock.CatchBlock, stmtBlockErr)
+		return handleExceptionSignal(vm, blockModule, entryDepth, execBlock.CatchBlock, stmtBlockErr)
 	}
 
 	return rtnValue, stmtBlockErr
@@ -177,13 +178,21 @@ func evalPureStmtBlock(vm *r.VM, stmtBlock *syntax.StmtBlock) (r.Element, error)
 	return rtnValue, err
 }
 
-func handleExceptionSignal(vm *r.VM, blockModule *r.Module, catchBlock []*syntax.CatchBlockPair, blockErr error) (r.Element, error) {
+func handleExceptionSignal(vm *r.VM, blockModule *r.Module, entryDepth int, catchBlock []*syntax.CatchBlockPair, blockErr error) (r.Element, error) {
 	// try to find if the blockErr is an exception signal
 	exception, realErr := extractSignalValue(blockErr, zerr.SigTypeException)
 
-	// so, if the blockErr is not an exception signal, return it directly
+	// runtime faults (and the exceptions Function.Exec made of them) are exceptions of
+	// the default class as well; any other error is returned directly
 	if realErr != nil {
-		return nil, realErr
+		switch e := realErr.(type) {
+		case *zerr.RuntimeError:
+			exception = value.NewException(e.Error())
+		case *value.Exception:
+			exception = e
+		default:
+			return nil, realErr
+		}
 	}
 
 	// by default, we use "异常" to match *value.Exception type exceptions
@@ -204,13 +213,18 @@ func handleExceptionSignal(vm *r.VM, blockModule *r.Module, catchBlock []*syntax
 
 		// if exception block matches exception className
 		if objClassName != "" && classID.GetLiteral() == objClassName {
+			// the calls that failed left their frames on the stack: drop them
+			vm.UnwindCallStack(entryDepth)
 			expCallFrame := r.NewExceptionCallFrame(blockModule, exception)
 			vm.PushCallFrame(expCallFrame)
 			// do execution (with "this" value = exception value)
 			_, err := evalPureStmtBlock(vm, catchBlockItem.StmtBlock)
 			if err == nil {
-				// get return value from exception block
-				rtnValue := vm.GetReturnValue()
+				// get return value from exception block (空 when the handler has no 输出)
+				var rtnValue r.Element = vm.GetReturnValue()
+				if rtnValue == nil {
+					rtnValue = value.NewNull()
+				}
 				vm.PopCallFrame()
 
 				return rtnValue, nil
